@@ -144,9 +144,18 @@ class _Proxy(object):
         return True
     def close(self, *a, **k):
         s = object.__getattribute__(self, '_s')
+        lab = object.__getattribute__(self, '_lab')
         with s._plock:
             r = object.__getattribute__(self, '_o').close(*a, **k)
-            s._plog_add(object.__getattribute__(self, '_lab'))
+            # ssh: octets left in the channel buffer now that paramiko's transport thread has been joined
+            s._plog_add(lab, s._chan_buffered() if lab == 'TransportClose' else None)
+        return r
+    def is_active(self):
+        # paramiko transport only: `if self._transport.is_active()` in SSHSession.close decides whether it is closed
+        s = object.__getattribute__(self, '_s')
+        with s._plock:
+            r = object.__getattribute__(self, '_o').is_active()
+            if not r and getattr(s, '_in_close', 0): s._plog_add('TransportInactive', s._chan_buffered())
         return r
 
 def _msgid(text):
@@ -241,6 +250,10 @@ def probe_class(kind):
         def _plog_add(self, lab, arg=None):
             with self._plock:
                 self._plog.append((lab, arg, threading.current_thread() is self))
+        def _chan_buffered(self):
+            ch = unwrap(self._pv.get('channel'))
+            try: return len(ch.in_buffer) if ch is not None else 0
+            except Exception: return 0
         # ---- flags and handles as logging properties
         def _get_connected(self): return self._pv.get('connected', False)
         def _set_connected(self, v):
@@ -280,10 +293,13 @@ def probe_class(kind):
             mine = threading.current_thread() is self
             t0 = now()
             self._plog_add('CloseCall')
+            with self._plock: self._in_close = getattr(self, '_in_close', 0) + 1
             try:
                 r = base.close(self)
             except BaseException as e:
                 self._plog_add('CloseRaise'); self.close_raised.append(type(e).__name__); raise
+            finally:
+                with self._plock: self._in_close -= 1
             with self._plock:
                 if not mine:
                     self.close_returned_at.append(now()); self.close_durations.append(now() - t0)
